@@ -44,8 +44,10 @@ func GetEncodeHandler(t reflect.Type) (handler EncodeHandler) {
 			handler = uint16Encode
 		case reflect.Uint32:
 			handler = uint32Encode
-		case reflect.Uint64, reflect.Uintptr:
+		case reflect.Uint64:
 			handler = uint64Encode
+		case reflect.Uintptr:
+			handler = uintptrEncode
 		case reflect.Bool:
 			handler = boolEncode
 		case reflect.Float32:
@@ -117,6 +119,11 @@ func uint32Encode(enc *Encoder, v interface{}) {
 
 func uint64Encode(enc *Encoder, v interface{}) {
 	enc.WriteUint64(*(*uint64)(reflect2.PtrOf(v)))
+}
+
+// a uintptr is 4 bytes wide on 32-bit platforms: it must not be read as a uint64
+func uintptrEncode(enc *Encoder, v interface{}) {
+	enc.WriteUint64(uint64(*(*uintptr)(reflect2.PtrOf(v))))
 }
 
 func float32Encode(enc *Encoder, v interface{}) {
@@ -262,6 +269,15 @@ func uint64PtrEncode(enc *Encoder, v interface{}) {
 	}
 }
 
+func uintptrPtrEncode(enc *Encoder, v interface{}) {
+	p := (*uintptr)(reflect2.PtrOf(v))
+	if p == nil {
+		enc.WriteNil()
+	} else {
+		enc.WriteUint64(uint64(*p))
+	}
+}
+
 func float32PtrEncode(enc *Encoder, v interface{}) {
 	p := (*float32)(reflect2.PtrOf(v))
 	if p == nil {
@@ -397,8 +413,10 @@ func getPtrEncodeHandler(t reflect.Type) (handler EncodeHandler) {
 			handler = uint16PtrEncode
 		case reflect.Uint32:
 			handler = uint32PtrEncode
-		case reflect.Uint64, reflect.Uintptr:
+		case reflect.Uint64:
 			handler = uint64PtrEncode
+		case reflect.Uintptr:
+			handler = uintptrPtrEncode
 		case reflect.Bool:
 			handler = boolPtrEncode
 		case reflect.Float32:
